@@ -211,3 +211,36 @@ func (g *gWorld) applyIll(op *gOp, ad *gAdapter) string {
 	g.illegal++
 	return ""
 }
+
+// checkTFuncs: generic.T1..T12 list their type parameters in order (enumerated, once per run).
+func checkTFuncs() string {
+	got := map[int][]generic.Comp{
+		1:  generic.T1[G0](),
+		2:  generic.T2[G0, G1](),
+		3:  generic.T3[G0, G1, G2](),
+		4:  generic.T4[G0, G1, G2, G3](),
+		5:  generic.T5[G0, G1, G2, G3, G4](),
+		6:  generic.T6[G0, G1, G2, G3, G4, G5](),
+		7:  generic.T7[G0, G1, G2, G3, G4, G5, G6](),
+		8:  generic.T8[G0, G1, G2, G3, G4, G5, G6, G7](),
+		9:  generic.T9[G0, G1, G2, G3, G4, G5, G6, G7, G8](),
+		10: generic.T10[G0, G1, G2, G3, G4, G5, G6, G7, G8, G9](),
+		11: generic.T11[G0, G1, G2, G3, G4, G5, G6, G7, G8, G9, G10](),
+		12: generic.T12[G0, G1, G2, G3, G4, G5, G6, G7, G8, G9, G10, G11](),
+	}
+	for n := 1; n <= 12; n++ {
+		want := compsOf(seqInts(n))
+		if len(got[n]) != n {
+			return fmt.Sprintf("generic.T%d returns %d types", n, len(got[n]))
+		}
+		for i := range want {
+			if got[n][i] != want[i] {
+				return fmt.Sprintf("generic.T%d: position %d is %v, type parameter %d is %v", n, i, got[n][i], i, want[i])
+			}
+		}
+	}
+	if generic.T[GR0]() != allStaticTypes[tGR0] {
+		return "generic.T[GR0]() is not the type GR0"
+	}
+	return ""
+}
